@@ -411,3 +411,9 @@ func Family(name string, maxDepth, maxVariants int) []proto.Message {
 func DescribeType(m proto.Message) string {
 	return strings.TrimPrefix(string(m.ProtoReflect().Descriptor().FullName()), corePkg)
 }
+
+// FillElement populates a single element (datatype or primitive) in place.
+func FillElement(m protoreflect.Message, variant int) {
+	g := &gen{variant: variant, maxDepth: 1, noContained: true}
+	g.fill(m, 0)
+}
